@@ -49,6 +49,7 @@ type Profile struct {
 	PCrashUndurableTerm                                                          float64 // crash a leader/candidate whose current term is not durable yet
 	PLateType                                                                    float64 // per run: one message type is systematically delayed by election timeouts
 	RemoveBias                                                                   float64 // probability that a membership change removes a voter other than the proposer
+	SnapChaos                                                                    float64 // MsgSnap is delayed by election timeouts / duplicated with this probability
 	PWideIDs                                                                     float64 // node ids spread over the whole uint64 range (hash-style ids) instead of 1..n
 	ShortElection                                                                bool
 	AggressiveCompaction                                                         bool
@@ -401,6 +402,17 @@ func (g *Gen) after() {
 		if f.Type == g.lateType && chance(g.rng, g.lateTypeP) {
 			d = int64((0.3 + 2.5*g.rng.Float64()) * float64(g.maxET) * tickUnit)
 			c.stats.fault("msg_type_delayed")
+		}
+		if f.Type == pb.MsgSnap && g.p.SnapChaos > 0 && !g.faultFree {
+			if chance(g.rng, g.p.SnapChaos) {
+				d = int64((0.5 + 4*g.rng.Float64()) * float64(g.maxET) * tickUnit)
+				c.stats.fault("snapshot_delayed")
+			}
+			if chance(g.rng, g.p.SnapChaos/2) {
+				g.schedule(&event{at: g.now + d, kind: evDeliver, f: f, keep: true})
+				g.schedule(&event{at: g.now + d + g.netDelay()*4, kind: evDeliver, f: f})
+				continue
+			}
 		}
 		if chance(g.rng, g.dupP) {
 			g.schedule(&event{at: g.now + d, kind: evDeliver, f: f, keep: true})
@@ -867,6 +879,14 @@ func (g *Gen) confChange() {
 		spec2.V1 = chance(g.rng, 0.5)
 		g.nextCtx++
 		act.CC2, act.J = &spec2, g.nextCtx
+	} else if chance(g.rng, 0.12) && g.proposals < g.p.MaxProposals {
+		// ordinary proposals travelling behind the change in the same message
+		k := 1 + g.rng.IntN(2)
+		for i := 0; i < k; i++ {
+			act.Tags = append(act.Tags, g.tag())
+		}
+		g.proposals += k
+		act.J = g.payloadSize()
 	}
 	g.do(act)
 }
